@@ -145,6 +145,17 @@ func ForEco(name string) Scenario {
 		"maven":    {"1.0-SNAPSHOT", "1.0.RC1"},
 		"gem":      {"2.0.0.rc1", "1.0.0.beta.2"},
 		"alpm":     {"1:1.0rc1-2", "1.0_1"},
+		// two pre-releases of one core: the identifier lists themselves must be compared
+		"semver":     {"1.2.3-alpha.10", "1.2.3-alpha.2.x", "1.2.3-beta"},
+		"npm":        {"1.2.3-alpha.10", "1.2.3-alpha.2.x", "v1.2.3-beta"},
+		"cargo":      {"1.2.3-alpha.10", "1.2.3-alpha.2.x", "1.2.3-beta"},
+		"hex":        {"1.2.3-rc.10", "1.2.3-rc.2.x", "1.2.3-beta"},
+		"nuget":      {"1.2.3-beta.10", "1.2.3-beta.2", "1.2.3.4-alpha"},
+		"conan":      {"1.2.3-alpha.10", "1.2.3-alpha.2", "1.2.3-beta"},
+		"apache":     {"1.2.3-RC10", "1.2.3-RC2", "1.2.3-M1"},
+		"mattermost": {"1.2.3-rc10", "1.2.3-rc2", "v1.2.3-esr"},
+		"gentoo":     {"1.2_rc10", "1.2_rc2", "1.2_p1-r1"},
+		"cran":       {"1.2-10", "1.2.2", "1.2-3.1"},
 	}[name]
 	inputs = append(inputs, extra...)
 	for _, q := range quads {
